@@ -32,6 +32,13 @@ ROAD3 = [1, 6, 24, 34, 9, 37, 20, 19, 15, 62, 58, 43, 45, 55, 28]            # i
 ROAD4 = [12, 51, 207, 61, 246, 216, 99, 141, 55, 220, 112, 192, 2, 9, 36, 146, 75, 45, 180, 209, 70, 27, 108, 177, 197, 22]
 
 
+def cycle_window3():
+    """order-3 masks around an information-free cycle with tails: AAA (self-loop), TAA/CAA/GAA -> AAA, GTA/TTA/ATA -> TAA, AGT -> GTA
+    (predecessors in every one of the four 'first nucleotide' positions, two and three cascade waves deep):
+    the threshold-1 clean-up and its predecessor cascade (two and more waves) are exercised for an observed length other than 2."""
+    return ([0] * 64, [0, 48, 44, 60, 12, 16, 32, 11])
+
+
 def road_windows(k):
     """masks that need many trimming rounds: an induced path of the de Bruijn graph whose last vertex is a dead end (the generator must
     drop one vertex per round), alone and next to a surviving complete component; a few free bits around it."""
